@@ -75,6 +75,7 @@ func (g *cgraph) definePhi(ph *ssa.Phi, key string, depth int) {
 	if !isIntegerT(ph.Type()) {
 		return
 	}
+	g.carriedMatchEnd(ph, key)
 	a := g.a
 	type edge struct {
 		t string
@@ -438,6 +439,7 @@ func (g *cgraph) defineLoad(x *ssa.UnOp, key string) {
 		g.le(zeroTerm, key, -1)
 	}
 	g.defineMatchIndex(x, key)
+	g.defineFindAllElem(x, key)
 	ia, ok := x.X.(*ssa.IndexAddr)
 	if !ok {
 		return
